@@ -85,6 +85,14 @@ Theorem C13_activate_worlds_restores : forall M ks fa frames body,
 Proof. exact activate_worlds_exact. Qed.
 Print Assumptions C13_activate_worlds_restores.
 
+(* histories of conversions interleaved with HOST writes (rebinding / deleting attributes, also patched
+   ones): after EACH call the own dicts, _PATCH_STATE and getattr are what they were immediately
+   before THAT call *)
+Theorem C13_host_history_restores : forall M evs st,
+  ps_wf (snd st) -> (forall e, In e evs -> hevent_ok e) -> every_call_restores M evs st.
+Proof. exact host_history_restores. Qed.
+Print Assumptions C13_host_history_restores.
+
 (* what still needs its premise: no exception between setattr and the bookkeeping (asynchronous only) *)
 Theorem C13_async_fault_after_setattr_leaks : exists M h specs k t a, forall fixed,
   lookup M (fst (with_patches M fixed specs (AfterSet k) (fun x => (x, Returned)) h)) t a <> lookup M h t a.
